@@ -177,6 +177,12 @@ func UpdateCase(r *rand.Rand, name string, o UpdateOpts) *Case {
 			sS.Fields = append(sS.Fields, F(f, Slice(Basic("string"))))
 			tS.Fields = append(tS.Fields, F(f, Slice(Basic("string"))))
 		case "identptr":
+			if r.Intn(2) == 0 {
+				// identical types with different names
+				sS.Fields = append(sS.Fields, F(f, Ptr(Basic("rune"))), F(f+"B", Ptr(Basic("byte"))))
+				tS.Fields = append(tS.Fields, F(f, Ptr(Basic("int32"))), F(f+"B", Ptr(Basic("uint8"))))
+				break
+			}
 			sS.Fields = append(sS.Fields, F(f, Ptr(Basic("int"))))
 			tS.Fields = append(tS.Fields, F(f, Ptr(Basic("int"))))
 		case "ignore":
